@@ -146,6 +146,40 @@ fn once_edited(input: &[u8], lite: bool) -> (String, Option<Vec<u8>>) {
     }
 }
 
+/// Thread pools live as long as the driver process (as rayon's global pool does in an application): the worker
+/// threads that handled one module handle the next one too, so anything a worker keeps between modules shows.
+/// Under Miri (lite) every case gets fresh pools: an interpreted process must not end with threads running.
+#[cfg(feature = "parallel")]
+enum PoolRef {
+    Shared(&'static rayon::ThreadPool),
+    Own(rayon::ThreadPool),
+}
+#[cfg(feature = "parallel")]
+impl PoolRef {
+    fn install<R: Send>(&self, f: impl FnOnce() -> R + Send) -> R {
+        match self {
+            PoolRef::Shared(p) => p.install(f),
+            PoolRef::Own(p) => p.install(f),
+        }
+    }
+}
+#[cfg(feature = "parallel")]
+fn pool_of(threads: usize, lite: bool) -> Option<PoolRef> {
+    use std::collections::HashMap;
+    use std::sync::{Mutex, OnceLock};
+    if lite {
+        return rayon::ThreadPoolBuilder::new().num_threads(threads).build().ok().map(PoolRef::Own);
+    }
+    static POOLS: OnceLock<Mutex<HashMap<usize, &'static rayon::ThreadPool>>> = OnceLock::new();
+    let mut m = POOLS.get_or_init(|| Mutex::new(HashMap::new())).lock().unwrap();
+    if let Some(p) = m.get(&threads) {
+        return Some(PoolRef::Shared(*p));
+    }
+    let p: &'static rayon::ThreadPool = Box::leak(Box::new(rayon::ThreadPoolBuilder::new().num_threads(threads).build().ok()?));
+    m.insert(threads, p);
+    Some(PoolRef::Shared(p))
+}
+
 #[cfg(not(feature = "parallel"))]
 pub fn run(input: &[u8], _scn: &str, rec: &mut Rec) {
     let (v3, out3) = once_edited(input, _scn.ends_with(":lite"));
@@ -217,9 +251,9 @@ pub fn run(input: &[u8], scn: &str, rec: &mut Rec) {
     let thread_counts: &[usize] = if lite { &[2, 3] } else { &[1, 2, 3, 4, 8, 16] };
     let modes: u64 = if lite { 2 } else { 5 };
     for &threads in thread_counts {
-        let pool = match rayon::ThreadPoolBuilder::new().num_threads(threads).build() {
-            Ok(p) => p,
-            Err(_) => continue,
+        let pool = match pool_of(threads, lite) {
+            Some(p) => p,
+            None => continue,
         };
         for m in 0u64..modes {
             mode.store(m, Ordering::Relaxed);
@@ -263,9 +297,9 @@ pub fn run(input: &[u8], scn: &str, rec: &mut Rec) {
     let mut first_ct: Option<(String, Option<Vec<u8>>)> = None;
     let ct_threads: &[usize] = if lite { &[2] } else { &[2, 4, 8, 16] };
     for &threads in ct_threads {
-        let pool = match rayon::ThreadPoolBuilder::new().num_threads(threads).build() {
-            Ok(p) => p,
-            Err(_) => continue,
+        let pool = match pool_of(threads, lite) {
+            Some(p) => p,
+            None => continue,
         };
         for m in 0u64..(if lite { 1 } else { 3 }) {
             mode.store(m, Ordering::Relaxed);
@@ -295,9 +329,9 @@ pub fn run(input: &[u8], scn: &str, rec: &mut Rec) {
     // code-transform set again, with ids from a non-injective on_instr_loc callback
     let mut first_ctl: Option<(String, Option<Vec<u8>>)> = None;
     for &threads in (if lite { &[2usize][..] } else { &[2usize, 7, 16][..] }) {
-        let pool = match rayon::ThreadPoolBuilder::new().num_threads(threads).build() {
-            Ok(p) => p,
-            Err(_) => continue,
+        let pool = match pool_of(threads, lite) {
+            Some(p) => p,
+            None => continue,
         };
         for m in 0u64..(if lite { 1 } else { 2 }) {
             mode.store(m, Ordering::Relaxed);
@@ -326,9 +360,9 @@ pub fn run(input: &[u8], scn: &str, rec: &mut Rec) {
     let mut first_ed: Option<(String, Option<Vec<u8>>)> = None;
     mode.store(0, Ordering::Relaxed);
     for &threads in (if lite { &[2usize][..] } else { &[1usize, 3, 16][..] }) {
-        let pool = match rayon::ThreadPoolBuilder::new().num_threads(threads).build() {
-            Ok(p) => p,
-            Err(_) => continue,
+        let pool = match pool_of(threads, lite) {
+            Some(p) => p,
+            None => continue,
         };
         let (v, out) = pool.install(|| once_edited(input, lite));
         runs += 1;
